@@ -1,6 +1,6 @@
 (* C17 — Concurrent invocations on one chaincode instance are isolated.
    Only property theorems, their assumptions and non-vacuity examples.          *)
-From Fnd Require Import Base.Prelude Model.Envs Proofs.EnvsProofs.
+From Fnd Require Import Base.Prelude Model.Envs Proofs.EnvsProofs Model.SharedMeta Proofs.SharedMetaProofs.
 
 (* Invocations (goroutine id, transaction, the keys the body writes - each through a fresh GetStub())
    run on ONE contract object whose context table is keyed by the goroutine id.  Goroutine ids and
@@ -34,6 +34,23 @@ Proof. exact shared_key_refuted. Qed.
 Print Assumptions C17_isolation.
 Print Assumptions C17_same_as_alone.
 Print Assumptions C17_shared_key_refuted.
+
+(* What is NOT isolated (finding F20): the token's metadata object hangs on ONE field of the contract.
+   Two metadata operations whose lifetimes overlap save each other's uncommitted change; with a field
+   (object) per invocation every one of the 20 interleavings of two operations gives each its solo
+   result.  The check replays the first on the implementation (hook after the metadata load). *)
+Theorem C17_shared_metadata_refuted :
+  saved_of (m_meta_run [] (fun _ => 0%nat) [1; 2]%N [0; 1; 1; 1; 0; 0]%nat) 0%nat = Some [2; 1]%N /\
+  saved_of (m_meta_run [] (fun _ => 0%nat) [1; 2]%N [0; 1; 0; 0; 1; 1]%nat) 1%nat = Some [1; 2]%N /\
+  saved_of (m_meta_run [] (fun _ => 0%nat) [1; 2]%N [0; 0; 0]%nat) 0%nat = Some [1]%N.
+Proof. exact shared_object_refuted. Qed.
+Theorem C17_own_metadata_object_isolated_2 :
+  forallb (fun sch => let s := m_meta_run [7]%N (fun i => i) [1; 2]%N sch in
+                      bool_decide (saved_of s 0%nat = Some [7; 1]%N) && bool_decide (saved_of s 1%nat = Some [7; 2]%N)) all_schedules2 = true
+  /\ length all_schedules2 = 20%nat.
+Proof. exact own_object_isolated_2. Qed.
+Print Assumptions C17_shared_metadata_refuted.
+Print Assumptions C17_own_metadata_object_isolated_2.
 
 Example C17_example :
   let s := c_run by_gid (c_init [(1, 10, [5; 6]); (2, 20, [7]); (3, 30, [8; 9])]%N) [0; 1; 0; 2; 2; 1; 0; 2; 1; 0; 2]%nat in
